@@ -1,2 +1,109 @@
-import Pakhi.Model.Interp
-import Pakhi.Model.Parser
+/-
+  C18 — output is exactly what the executed print statements denote, in order.
+
+  `render` is the one recursive value renderer as a pure function of the heap: numbers as in C09,
+  সত্য / মিথ্যা, strings verbatim, `[e1, e2]`, `@{"k":v,}` — recursively, to any depth, shared
+  sub-containers at each occurrence.  `print_is_render`: the interpreter's three copies of the
+  printing code (`দেখাও`, `_দেখাও`, nested elements) all append exactly `render v` to the output and
+  change nothing else; `দেখাও` then appends a newline and `_দেখাও` nothing; printing nil or a
+  function is an error that writes nothing; the statements that are not print statements and
+  evaluate no expression (`{`, `}`, `লুপ`, `আবার`, `থামাও`, `অথবা`, `ফাং`) leave the output untouched.
+  (Expression evaluation writes only through the print statements of called functions; that the
+  whole program's output is the in-order concatenation is the control refinement of C02–C05.)
+-/
+import Pakhi.Lemmas.Render
+
+namespace Pakhi
+namespace C18
+
+/-- the nested printer appends exactly the rendering of the value and changes nothing else -/
+theorem print_is_render (cur : List Stmt) (f : Nat) (v : Val) (s s' : St) (h : printVal cur f v s = .ok s') :
+    ∃ t, render s.heap f v = some t ∧ OnlyAppends s s' t := (print_spec cur f).1 v s s' h
+
+/-- `দেখাও v;` appends `render v` and a newline; `_দেখাও v;` appends `render v` and nothing else -/
+theorem print_statement (cur : List Stmt) (f : Nat) (eol : Bool) (v : Val) (s s' : St) (h : printTop cur f eol v s = .ok s') :
+    ∃ t, render s.heap f v = some t ∧ OnlyAppends s s' (t ++ if eol then ['\n'] else []) := by
+  unfold printTop at h
+  split at h
+  · cases cur <;> simp [stmtErr, mkErr, unexpected, Res.tagOut] at h
+  · cases cur <;> simp [stmtErr, mkErr, unexpected, Res.tagOut] at h
+  · split at h
+    · rename_i s1 hp
+      obtain ⟨t, ht, ha⟩ := print_is_render cur f v s s1 hp
+      simp at h; subst h
+      refine ⟨t, ht, ?_⟩
+      cases eol
+      · simpa using ha
+      · simpa using onlyAppends_trans ha (onlyAppends_emit s1 ['\n'])
+    · simp at h
+    · simp at h
+    · simp at h
+
+/-- printing nil or a function is an error, and nothing is written -/
+theorem print_nil_or_func_err (st : Stmt) (rest : List Stmt) (f : Nat) (eol : Bool) (s : St) :
+    (∃ e, printTop (st :: rest) f eol .nil s = .err e ∧ e.cls = .type ∧ e.out = s.out) ∧
+    (∀ r ps, ∃ e, printTop (st :: rest) f eol (.func r ps) s = .err e ∧ e.cls = .type ∧ e.out = s.out) := by
+  constructor
+  · simp [printTop, stmtErr, mkErr, Res.tagOut]
+  · intro r ps; simp [printTop, stmtErr, mkErr, Res.tagOut]
+
+/-- nested nil / function values are errors too (after the enclosing `[` has been written) -/
+theorem nested_nil_or_func_err (st : Stmt) (rest : List Stmt) (f : Nat) (s : St) :
+    (∃ e, printVal (st :: rest) (f+1) .nil s = .err e ∧ e.cls = .runtime) ∧
+    (∀ r ps, ∃ e, printVal (st :: rest) (f+1) (.func r ps) s = .err e ∧ e.cls = .runtime) := by
+  constructor
+  · simp [printVal, stmtErr, mkErr, Res.tagOut]
+  · intro r ps; simp [printVal, stmtErr, mkErr, Res.tagOut]
+
+/-- scalars: booleans print as সত্য / মিথ্যা, strings verbatim, numbers as their C09 text -/
+theorem render_scalars (h : Heap) (f : Nat) :
+    render h (f+1) (.bool true) = some W.wTrue ∧ render h (f+1) (.bool false) = some W.wFalse ∧
+    (∀ t, render h (f+1) (.str t) = some t) ∧ (∀ n, render h (f+1) (.num n) = toBnNum? n) := by
+  simp [render]
+
+/-- a list renders as `[` elements separated by `, ` `]`; a record as `@{` entries `"k":v,` `}` -/
+theorem render_containers (h : Heap) (f : Nat) (i : Nat) :
+    (∀ l, h.lists[i]? = some l → render h (f+1) (.list i) = (render.renderElems h f l true).map (fun t => '[' :: t ++ [']'])) ∧
+    (∀ r, h.records[i]? = some r → render h (f+1) (.record i) = (render.renderEntries h f r).map (fun t => '@' :: '{' :: t ++ ['}'])) ∧
+    (∀ first, render.renderElems h (f+1) [] first = some []) ∧
+    (∀ x xs first a b, render h f x = some a → render.renderElems h f xs false = some b →
+        render.renderElems h (f+1) (x :: xs) first = some ((if first then [] else W.sepCommaSpace) ++ a ++ b)) ∧
+    (∀ k x xs a b, render h f x = some a → render.renderEntries h f xs = some b →
+        render.renderEntries h (f+1) ((k, x) :: xs) = some ('"' :: k ++ ['"', ':'] ++ a ++ [','] ++ b)) := by
+  refine ⟨?_, ?_, ?_, ?_, ?_⟩
+  · intro l hl; simp [render, hl]
+  · intro r hr; simp [render, hr]
+  · intro first; simp [render.renderElems]
+  · intro x xs first a b ha hb; simp [render.renderElems, ha, hb]
+  · intro k x xs a b ha hb; simp [render.renderEntries, ha, hb]
+
+example : render { lists := [[.bool true, .str ['a']]], freeLists := [], records := [], freeRecords := [], allocCount := 0 } 5 (.list 0)
+    = some ('[' :: W.wTrue ++ W.sepCommaSpace ++ ['a'] ++ [']']) := by decide
+
+/-- statements that evaluate no expression never write -/
+theorem structural_statements_write_nothing (prog : List Stmt) (f : Nat) (rest cur' : List Stmt) (s s' : St) (m : Meta) :
+    (exec prog (f+1) (.blockStart m :: rest) s = .ok (cur', s') → s'.out = s.out) ∧
+    (exec prog (f+1) (.blockEnd m :: rest) s = .ok (cur', s') → s'.out = s.out) ∧
+    (exec prog (f+1) (.loop m :: rest) s = .ok (cur', s') → s'.out = s.out) ∧
+    (exec prog (f+1) (.cont m :: rest) s = .ok (cur', s') → s'.out = s.out) ∧
+    (exec prog (f+1) (.brk m :: rest) s = .ok (cur', s') → s'.out = s.out) ∧
+    (exec prog (f+1) (.else m :: rest) s = .ok (cur', s') → s'.out = s.out) := by
+  refine ⟨?_, ?_, ?_, ?_, ?_, ?_⟩ <;> intro h <;> simp only [exec] at h
+  · simp at h; rw [← h.2]
+  · split at h
+    · cases rest <;> simp [stmtErr, mkErr, unexpected, Res.tagOut] at h
+    · simp at h; rw [← h.2]
+  · simp at h; rw [← h.2]
+  · split at h
+    · simp [stmtErr, mkErr, Res.tagOut] at h
+    · simp at h; rw [← h.2]
+  · split at h
+    · split at h <;> simp at h; rw [← h.2]
+    · split at h <;> simp at h; rw [← h.2]
+  · split at h
+    · simp [stmtErr, mkErr, Res.tagOut] at h
+    · split at h <;> simp at h; rw [← h.2]
+    · simp at h; rw [← h.2]
+
+end C18
+end Pakhi
